@@ -246,6 +246,58 @@ def enumerate_to_index_loop(s, rewrites=None):
         s = s[:m.start()] + new + s[cb + 1:]
 
 
+def chunks_to_index_loop(s, rewrites=None):
+    """D16: `let c = v.chunks(n);` becomes `let c = slice_chunks(&v, n);` (an environment function standing for
+    <[T]>::chunks: panics for n == 0, otherwise ceil(len / n) pieces, piece i = v[i*n .. min((i+1)*n, len)]), and the loop
+    `for (i, x) in c.enumerate() { BODY }` over that value becomes
+        let mut i: usize = 0; while i < c.len() { let x = c.chunk_at(i); BODY i += 1; }
+    (Enumerate<Chunks> yields (0, piece 0), (1, piece 1), ...), under the same no-`continue` condition as D15."""
+    rx = re.compile(r'^([ \t]*)let (\w+) = (\w+)\.chunks\((\w+)\);', re.M)
+    ms = list(rx.finditer(s))
+    for m in reversed(ms):
+        s = s[:m.start()] + '%slet %s = slice_chunks(&%s, %s);' % (m.group(1), m.group(2), m.group(3), m.group(4)) + s[m.end():]
+    for c in [m.group(2) for m in ms]:
+        lx = re.compile(r'^([ \t]*)for \((\w+), (\w+)\) in ' + c + r'\.enumerate\(\) \{', re.M)
+        m = lx.search(s)
+        if not m:
+            continue
+        ind, i, x = m.group(1), m.group(2), m.group(3)
+        ob = m.end() - 1
+        cb = _match(s, ob, '{', '}')
+        body = s[ob + 1:cb]
+        if re.search(r'\bcontinue\b', body):
+            raise Undecided('unsupported construct: continue inside a chunks loop (D16 not applicable)')
+        new = ('%slet mut %s: usize = 0;\n%swhile %s < %s.len() {\n%s    let %s = %s.chunk_at(%s);%s\n%s    %s += 1;\n%s}'
+               % (ind, i, ind, i, c, ind, x, c, i, body.rstrip(), ind, i, ind))
+        if rewrites is not None:
+            rewrites.append('D16 chunks loop over %s' % c)
+        s = s[:m.start()] + new + s[cb + 1:]
+    return s
+
+
+def iter_to_index_loop(s, rewrites=None):
+    """D15 (plain form): `for x in v.iter() { BODY }` over a slice/Vec `v` becomes
+        let mut idx_x: usize = 0; while idx_x < v.len() { let x = &v[idx_x]; BODY idx_x += 1; }
+    under the same condition (no `continue` in BODY)."""
+    rx = re.compile(r'^([ \t]*)for (\w+) in (\w+)\.iter\(\) \{', re.M)
+    while True:
+        m = rx.search(s)
+        if not m:
+            return s
+        ind, x, v = m.group(1), m.group(2), m.group(3)
+        i = 'idx_' + x
+        ob = m.end() - 1
+        cb = _match(s, ob, '{', '}')
+        body = s[ob + 1:cb]
+        if re.search(r'\bcontinue\b', body) or re.search(r'\b' + i + r'\b', s):
+            raise Undecided('unsupported construct: D15 not applicable to the loop over %s' % v)
+        new = ('%slet mut %s: usize = 0;\n%swhile %s < %s.len() {\n%s    let %s = &%s[%s];%s\n%s    %s += 1;\n%s}'
+               % (ind, i, ind, i, v, ind, x, v, i, body.rstrip(), ind, i, ind))
+        if rewrites is not None:
+            rewrites.append('D15 iter loop over %s' % v)
+        s = s[:m.start()] + new + s[cb + 1:]
+
+
 def slice_struct(t, keep):
     """D3: keep only the named fields (order preserved)."""
     i = t.index('{')
